@@ -488,14 +488,16 @@ class ConditionLike:
                 try:
                     spec_val = valida.datapath.DataPath.from_spec(spec_val)
                 except MalformedDataPathSpec:
-                    # Check values for DataPath specs:
+                    # Check values for DataPath specs (in a copy of the caller's mapping):
+                    spec_val = dict(spec_val)
                     for k, v in spec_val.items():
                         try:
                             spec_val[k] = valida.datapath.DataPath.from_spec(v)
                         except MalformedDataPathSpec:
                             pass
             elif isinstance(spec_val, (list, tuple)):
-                # Check items for DataPath specs:
+                # Check items for DataPath specs (in a copy of the caller's list):
+                spec_val = list(spec_val)
                 for idx, v in enumerate(spec_val):
                     try:
                         spec_val[idx] = valida.datapath.DataPath.from_spec(v)
